@@ -15,11 +15,12 @@ theorem errbuf_vsn_fits : 0 < errVsnSize ∧ errVsnSize ≤ errBufSize := by dec
 theorem errLen_le (ret : Int) (hr : inS32 ret = true) :
     errLen ret + 2 ≤ errBufSize ∧ -2147483648 ≤ errLen ret := by
   have hr' := (inS32_iff ret).mp hr
+  -- bridging facts over the REGENERATED clamp (no literal buffer size in this proof: a different `sizeof msg` re-proves)
+  have hc : errClampTo + 2 ≤ (errBufSize : Int) ∧ -2147483648 ≤ errClampTo := by decide
+  have hg : guard_error_clamp ret = decide (ret > errClampTo) := rfl
   unfold errLen
-  simp only [guard_error_clamp, errClampTo, trunc32, errBufSize]
-  have e : ((8192 + 2147483648) % 4294967296 - 2147483648 - 2 + 2147483648) % 4294967296 - 2147483648 = (8190 : Int) := by decide
-  simp only [e]
-  by_cases h : ret > 8190 <;> simp [h] <;> omega
+  rw [hg]
+  by_cases h : ret > errClampTo <;> simp [h] <;> omega
 
 /-- every index at which error() itself reads or writes `msg` is inside the buffer, for EVERY `int` that vsnprintf
     may return (C99 would-be length of any size, or a negative pre-C99 failure code) and every buffer content -/
